@@ -229,6 +229,52 @@ d = (C()).add(4)
 print d.n
 print d is a
 """),
+    ("chain_after_method_returning_another_object", """
+class C {
+  n: int
+  label: str
+  constructor(self, label: str, n: int) {
+    self.label = label
+    self.n = n
+  }
+  fn add(self, by: int) -> Self {
+    self.n = self.n + by
+    return self
+  }
+  fn fork(self, label: str) -> Self {
+    return Self(label, self.n)
+  }
+  fn pick(self, other: Self) -> Self {
+    if other.n > self.n {
+      return other
+    }
+    return self
+  }
+  fn forkadd(self, by: int) -> Self {
+    return self.fork("m").add(by)
+  }
+  fn show(self) -> str {
+    return self.label + "=" + self.n
+  }
+}
+a = C("a", 1)
+b = C("b", 50)
+a.add(1).add(2)
+print a.show()
+f1 = a.fork("f1").add(10)
+print a.show()
+print f1.show()
+print f1 is a
+a.pick(b).add(5)
+print a.show()
+print b.show()
+print a.pick(b).show()
+g = a.forkadd(7)
+print a.show()
+print g.show()
+print a.fork("x").fork("y").add(1).add(2).show()
+print a.show()
+"""),
     ("clone_via_self_constructor_is_distinct", """
 class C {
   n: int
